@@ -13,7 +13,7 @@ def dense(x, k, b):
 
 
 def dense_general(x, k, b, axis):
-  axis = tuple(a % x.ndim for a in axis)
+  axis = tuple(sorted(a % x.ndim for a in axis))      # kernel dimension i belongs to the i-th smallest contracted axis
   batch = [d for d in range(x.ndim) if d not in axis]
   feat_shape = k.shape[len(axis):]
   y = np.zeros(tuple(x.shape[d] for d in batch) + feat_shape)
